@@ -9,7 +9,7 @@
 #include "desc.hpp"
 #include <fcntl.h>
 
-extern "C" { extern long yaep_verif_alloc_count, yaep_verif_alloc_bytes; extern int all_searches, all_collisions; }
+extern "C" { extern long yaep_verif_alloc_count, yaep_verif_alloc_bytes; }
 
 struct ScaleSpec { std::string name, text, unit, first; bool nested; };
 struct Work { long bytes, reqs, searches, collisions, usets, ucores, triples, gotos; int rc; size_t errs; };
@@ -31,11 +31,11 @@ static Work measure(const ScaleSpec &sp, long n, int la) {
   // statistics go to stderr at debug level 1: capture them
   char tmpl[] = "/var/tmp/yaep-scale-XXXXXX"; int fd = mkstemp(tmpl); unlink(tmpl);
   fflush(stderr); int saved = dup(2); dup2(fd, 2);
-  long b0 = yaep_verif_alloc_bytes, r0 = yaep_verif_alloc_count; int s0 = all_searches, c0 = all_collisions;
+  long b0 = yaep_verif_alloc_bytes, r0 = yaep_verif_alloc_count; long s0 = vy_all_searches(), c0 = vy_all_collisions();
   struct yaep_tree_node *root = NULL; int amb = 0;
   Work w{};
   w.rc = vy_parse(y, rd, se, bump_alloc, NULL, &root, &amb);
-  w.bytes = yaep_verif_alloc_bytes - b0; w.reqs = yaep_verif_alloc_count - r0; w.searches = (long) (unsigned) (all_searches - s0); w.collisions = (long) (unsigned) (all_collisions - c0);
+  w.bytes = yaep_verif_alloc_bytes - b0; w.reqs = yaep_verif_alloc_count - r0; w.searches = (long) (unsigned) (vy_all_searches() - s0); w.collisions = (long) (unsigned) (vy_all_collisions() - c0);
   w.errs = g_nerr;
   fflush(stderr); dup2(saved, 2); close(saved);
   std::string out; char buf[4096]; lseek(fd, 0, SEEK_SET); ssize_t k; while ((k = read(fd, buf, sizeof buf)) > 0) out.append(buf, k); close(fd);
